@@ -29,9 +29,18 @@ PI = math.pi
 # ----------------------------------------------------------------------
 # values
 # ----------------------------------------------------------------------
-def fresh_callers():
+def fresh_callers(variant="spherical"):
     from droplets import DiffuseDroplet, SphericalDroplet
 
+    if variant == "diffuse":
+        # same roles, but the collection's main class is DiffuseDroplet: sharp (width exactly 0), finite and unset widths
+        return [
+            DiffuseDroplet(np.array([1.0, 2.0]), 1.0, 0.0),
+            DiffuseDroplet(np.array([3.0, 1.0]), 2.5, 0.3),
+            SphericalDroplet(np.array([0.5, 0.5]), 0.7),
+            DiffuseDroplet(np.array([1.0]), 1.0, 0.1),
+            DiffuseDroplet(np.array([1.5, 2.0]), 0.4, None),
+        ]
     return [
         SphericalDroplet(np.array([1.0, 2.0]), 1.0),
         SphericalDroplet(np.array([3.0, 1.0]), 2.5),
@@ -117,10 +126,12 @@ EM_OPS = (
 
 
 class EmWorld:
+    VARIANT = "spherical"
+
     def __init__(self):
         from droplets import Emulsion
 
-        self.X = fresh_callers()
+        self.X = fresh_callers(self.VARIANT)
         self.E = Emulsion()
         self.S = None
         self.D = None  # linked array
@@ -583,7 +594,11 @@ class TrWorld:
                 ctx.check("C20.summary", K.data is None and K.dim is None, {"what": "empty-track"}, tags)
 
 
-WORLDS = {"emulsion": (EmWorld, EM_OPS), "timecourse": (TcWorld, TC_OPS), "track": (TrWorld, TR_OPS)}
+class EmWorldDiffuse(EmWorld):
+    VARIANT = "diffuse"
+
+
+WORLDS = {"emulsion": (EmWorld, EM_OPS), "emulsion-diffuse": (EmWorldDiffuse, EM_OPS), "timecourse": (TcWorld, TC_OPS), "track": (TrWorld, TR_OPS)}
 
 
 # ----------------------------------------------------------------------
